@@ -997,3 +997,11 @@ MUTANTS += [
     Edit("inside-first: absolute tolerance in the selection test", "jellyfysh/lifting/inside_first_lifting.py",
          "            if self._random_position <= summed_lifting_rate:", "            if self._random_position <= summed_lifting_rate + 1.0e-13:", "R5.3"),
 ]
+
+# seventh round (C05_H): target units filtered by the sign of their derivative before the insertion
+MUTANTS.append(Edit("only target units with a negative derivative are inserted", "jellyfysh/event_handler/abstracts/event_handler_with_bounding_potential.py",
+                    "                self._lifting.insert(target_composite_object_factor_derivatives[index_2],\n"
+                    "                                     target_unit.identifier, False)",
+                    "                if target_composite_object_factor_derivatives[index_2] < 0.0:\n"
+                    "                    self._lifting.insert(target_composite_object_factor_derivatives[index_2],\n"
+                    "                                         target_unit.identifier, False)", "R5.4", nth=0))
